@@ -243,7 +243,7 @@ func run(c *harness.Ctx, i int) {
 			return cmd
 		})
 		if err != nil {
-			c.Inconclusive("server did not come up: %v %s", err, stderr.String())
+			c.Skip("server did not come up: %v %s", err, stderr.String())
 			return
 		}
 		defer dsu.StopServerCmd(cmd)
